@@ -41,7 +41,7 @@ func (c20) Describe() engine.Info {
 	return engine.Info{
 		Rule: "scenario = random register schedule (power off/on, triggers of all four channels, NR50/NR51 routing and volumes, frequencies, envelopes, wave RAM) over 0.1..2.6 emulated seconds. pace: per-cycle drain; every sample stamped with its cycle. stall: capacity 1..64 and burst reads so that the sender blocks; compared with the per-cycle-drained stream. route: one channel is never routed to one side; a second run rewrites that channel's registers differently; that side's stream must not change. " +
 			"Oracle: left and right always paired in the same cycle; within an anchored stretch sample k is 95 k clocks after the anchor (+-3 clocks of cycle quantisation); a re-phasing gap of 96..189 clocks is accepted at most once per emulated second; 44,149 or 44,150 pairs in every full emulated second with sound on; none while sound is off; every sample finite, in [0,1), and 0 when no enabled channel is routed to that side. Signature = (class, sound toggled?, channels playing bitmap, capacity class)." +
-			" The stream must start within two sample periods and may not dry up while sound is on. Environment dimensions as C12. Half of the route scenarios start with the unrouted channel's note running out and being restarted by NRx4 alone (length register untouched) while the other channels play length-limited notes. NR51/NR50 values include everything-routed-that-may-be and equal levels; the envelope register of a held note is rewritten 40..90 times in a row.",
+			" The stream must start within two sample periods and may not dry up while sound is on. Environment dimensions as C12. Half of the route scenarios start with the unrouted channel's note running out and being restarted by NRx4 alone (length register untouched) while the other channels play length-limited notes. NR51/NR50 values include everything-routed-that-may-be and equal levels; the envelope register of a held note is rewritten 40..90 times in a row. The unrouted channel's length counting is switched off and on without trigger with one clock left.",
 		Assumptions:    []string{"the statement's two figures (one pair per 95 clocks, 44,149 per second) differ; both are below 4,194,304/95, so a once-per-second re-phasing is accepted and the 95-clock grid is demanded between re-phasings", "with no outputs attached there is nothing to observe beyond the absence of channels"},
 		RequiredProbes: []string{"samples_stamped", "full_seconds_counted", "sound_off_periods", "sender_blocked_runs", "routing_pairs", "zero_when_nothing_routed"},
 		RealComponents: realComponents, StubComponents: stubComponents,
